@@ -119,8 +119,15 @@ func (a *IBCAdapter) ParsePacket(
 		return nil, err
 	}
 
+	// NOTE: sdk.NewCoin panics on an invalid denom or a negative amount, and the packet
+	// data has not been validated by the ICS20 application yet.
+	coin := sdk.Coin{Denom: denom, Amount: amount}
+	if err := coin.Validate(); err != nil {
+		return nil, errorsmod.Wrap(err, "invalid coin")
+	}
+
 	return &types.ParsedData{
-		Coin:    sdk.NewCoin(denom, amount),
+		Coin:    coin,
 		Payload: *payload,
 	}, nil
 }
